@@ -298,6 +298,27 @@ def _replay(case, clause, model, seed):
             return {"ran": True, "failed": True, "inputs": {"H": H.tolist(), "ppp": p.tolist(), "r": r.tolist()}, "detail": f"raises {type(e).__name__}: {e}"}
         tol = 1e-8 * (1 + np.abs(H).max() + np.abs(r).max())
         bad = None
+        # (h) no hidden state: the same call repeated after a call with another cell of equal diagonal gives the same result
+        if not mutated:
+            H2 = H.copy()
+            if kind != "diag":
+                H2[d - 1, 0] += 0.75
+            else:
+                H2 = H2 * 1.0
+            try:
+                o2, _ = call(rows, H2, p)
+                G2 = np.linalg.inv(H2)
+                for j, rr in enumerate(rows):
+                    coef2 = (rr - o2[j]) @ G2
+                    if np.any(np.abs(coef2 - np.round(coef2)) > 1e-6) or np.any(np.abs(coef2[p == 0]) > 1e-6):
+                        bad = (f"(h) after a call with cell {H.tolist()}, the call with cell {H2.tolist()} (same box lengths, different tilt) returns "
+                               f"result - r = {(-coef2).tolist()} cell vectors: not an integer combination of periodic axes (hidden state)")
+                        break
+                again, _ = call(rows, H, p)
+                if bad is None and not np.array_equal(again, out):
+                    bad = "(h) repeating the same call after a call with another cell (same box lengths, different tilt) gives a different result: hidden state"
+            except Exception as e:  # noqa
+                bad = f"(h) repeated call raises {type(e).__name__}: {e}"
         if mutated:
             bad = "an input array was modified"
         for j, rr in enumerate(rows):
